@@ -1,0 +1,8 @@
+//go:build verif
+
+package shiftdfa
+
+// VerifTables exposes the packed tables of a Scanner (verification hook, add-only).
+func VerifTables(s *Scanner) (table [256]uint64, onEoi [11]uint8) {
+	return s.table, s.onEoi
+}
